@@ -42,6 +42,11 @@ theorem range_zero_toList (k : Nat) : Py.Range.toList ⟨0, (k : Int)⟩ = (List
   intro a _
   simp
 
+/-- `a // 2` on a natural -/
+theorem floordiv_two (a : Nat) : Py.floordiv (a : Int) 2 = .ok ((a / 2 : Nat) : Int) := by
+  have := Py.floordiv_nat a 2 (by omega)
+  simpa using this
+
 /-- `-1 // b` for a positive `b` -/
 theorem floordiv_neg_one (b : Nat) (hb : 0 < b) : Py.floordiv (-1) (b : Int) = .ok (-1) := by
   have hb' : (0 : Int) < (b : Int) := by omega
